@@ -252,7 +252,7 @@ func C07(tier string) int {
 	res := NewResult("C07", tier, "exploration")
 	var cases []reqCase
 	forEachReqCase(func(c reqCase) { cases = append(cases, c) })
-	res.Rule = fmt.Sprintf("the full product {PostInbox,PostOutbox,GetInbox,GetOutbox,handler} x {social,federating,both; plus NewCustomActor over an application-written delegate with neither / social / federating / both protocols on, over reduced method, header and body alphabets} x authentication {ok,denied,error,error-with-true} x block {no,yes,error} x %d methods x %d header values x %d bodies, plus (authenticated, unblocked, GET / POST) every header value again with the header that is irrelevant for the method (Accept on a POST, Content-Type on a GET) carrying the ActivityStreams type or text/html = %d requests, each on a fresh world but in ONE process, after a warm-up with the odd-case spellings (a remembered answer would show); plus every corpus POST with one body node removed, emptied or replaced by a value of another legal shape under {authentication denied, authentication error, sender blocked, block check erroring, all open}; monitor over the seam call log; non-trivial = request classes (entry,kind,auth,block,method-ok,header-class,body-class) that reach a decision point", len(methods), len(headerVariants), len(bodyVariants()), len(cases))
+	res.Rule = fmt.Sprintf("the full product {PostInbox,PostOutbox,GetInbox,GetOutbox,handler} x {social,federating,both; plus NewCustomActor over an application-written delegate with neither / social / federating / both protocols on, over reduced method, header and body alphabets} x authentication {ok,denied,error,error-with-true} x block {no,yes,error} x %d methods x %d header values x %d bodies, plus (authenticated, unblocked, GET / POST) every header value again with the header that is irrelevant for the method (Accept on a POST, Content-Type on a GET) carrying the ActivityStreams type or text/html = %d requests, each on a fresh world but in ONE process, after a warm-up with the odd-case spellings (a remembered answer would show); plus every corpus POST with one body node removed, emptied or replaced by a value of another legal shape under {authentication denied, authentication error, sender blocked, block check erroring, all open}; plus inbox POSTs by 5, 6, 9 and 17 actors of which the application blocks exactly one (every position; also one whose id differs from another's only in letter case); monitor over the seam call log; non-trivial = request classes (entry,kind,auth,block,method-ok,header-class,body-class) that reach a decision point", len(methods), len(headerVariants), len(bodyVariants()), len(cases))
 	res.Assumptions = []string{"header values marked 'either' (case variants, lists) are exempt from the handled/not-handled assertion but not from the monitors",
 		"a panic is C11's business and is not judged here"}
 	warmUpOddCaseHeaders()
@@ -427,7 +427,57 @@ func C07(tier string) int {
 			res.Violate(v.key, v.what, v.rep)
 		}
 	})
-	res.Evaluations += nMut
+	// long actor lists with ONE blocked actor (the application blocks by id): 5, 6, 9 and 17 actors, the
+	// blocked one at every position, and two actors whose ids differ only in letter case with the later one
+	// blocked - no side effect whatever the position
+	nLong := 0
+	for _, n := range []int{5, 6, 9, 17} {
+		for p := 0; p <= n; p++ {
+			var acts L
+			var ids []string
+			for i := 0; i < n; i++ {
+				id := Peer(i)
+				if p == n && i == n-1 {
+					id = strings.Replace(Peer(0), "/u/p0", "/u/P0", 1) // differs from actor 0 in case only; the blocked one
+				}
+				ids = append(ids, id)
+				if i%2 == 1 {
+					acts = append(acts, Emb("Person", id))
+				} else {
+					acts = append(acts, id)
+				}
+			}
+			blocked := ids[n-1]
+			if p < n {
+				blocked = ids[p]
+			}
+			sc := &Scenario{Name: fmt.Sprintf("c07/%d actors, #%d blocked", n, p), Kind: ap.Both, Entry: "PostInbox", URL: inbox(Alice),
+				Body: Doc("Create", RAct, "actor", acts, "to", Col1, "object", Emb("Note", RAct+"/n", "content", "x", "inReplyTo", Note1)),
+				Tweak: func(a *ap.App) { a.BlockedSet[blocked] = true; a.Callbacks = ap.CBWrapped }}
+			a := sc.World()
+			before := a.Canonical()
+			out := sc.On(a, nil)
+			nLong++
+			if out.Panic != nil {
+				continue
+			}
+			se := 0
+			for _, cl := range a.Log {
+				if isSideEffect(cl.Op) {
+					se++
+				}
+			}
+			for _, pa := range out.Req.PreAuth {
+				res.Violate("call-"+strings.SplitN(pa, ":", 2)[0]+"|PostInbox|long-actor-list", sc.Name+": "+pa, M{"check": "C07", "part": "long-actor-list", "scenario": sc.Name})
+			}
+			if se > 0 || a.Canonical() != before || len(a.Deliveries) > 0 {
+				res.Violate("side-effect-after-failed-block-check|PostInbox|long-actor-list", fmt.Sprintf("%s: %d side-effect calls although actor %s is blocked; calls=%v", sc.Name, se, shortID(blocked), callNames(a.Log, 12)),
+					M{"check": "C07", "part": "long-actor-list", "scenario": sc.Name, "body": sc.Body})
+			}
+		}
+	}
+	res.Evaluations += nMut + nLong
+	res.Extra["long_actor_list_requests"] = nLong
 	res.Extra["unusual_body_requests"] = nMut
 	return res.Finish()
 }
